@@ -64,7 +64,8 @@ def describe(v):
 
 def out_value(pv):
     which = pv.WhichOneof("value")
-    o = {"v": which or "absent", "neg": False, "d": [], "b": [], "hex": [], "prefix": "", "num": ""}
+    # (a parameter that is PRESENT in the package but carries no value is "empty" - not the same as a parameter left out)
+    o = {"v": which or "empty", "neg": False, "d": [], "b": [], "hex": [], "prefix": "", "num": ""}
     if which == "literal":
         o.update(v="literal", b=B(pv.literal))
     elif which == "string_value":
